@@ -333,7 +333,7 @@ var Scenarios = []Directed{
 		s.Vote(4, p[1], 0)
 		s.Vote(1, p[1], 0)
 		s.End()
-		s.Blocks(2, allHdr)                 // 7, 8 = end of the window
+		s.Blocks(2, allHdr)              // 7, 8 = end of the window
 		s.Begin(Hdr{Evidence: []int{4}}) // 9: a4 (silent on A, yes on B) is slashed after the close: 55 -> 51, threshold 34
 		s.End()
 		s.Blocks(6, allHdr)
